@@ -3,6 +3,7 @@ package goat
 import (
 	"context"
 	"fmt"
+	"math"
 	"reflect"
 	"strconv"
 	"strings"
@@ -656,16 +657,25 @@ func contextFromHeaders(
 }
 
 // See https://grpc.io/docs/guides/wire.html#requests
+//
+// A timeout is a run of ASCII digits followed by a unit. Anything else (signs,
+// spaces, an unknown unit) is not a timeout and is ignored. A value which does
+// not fit a time.Duration saturates at the maximum instead of wrapping around
+// to a short or negative one. More than the eight digits of the wire format
+// are tolerated: our own client encodes long deadlines in milliseconds.
 func parseGrpcTimeout(timeout string) (time.Duration, bool) {
-	if timeout == "" {
+	if len(timeout) < 2 {
 		return 0, false
 	}
 	suffix := timeout[len(timeout)-1]
+	digits := timeout[:len(timeout)-1]
 
-	val, err := strconv.ParseInt(timeout[:len(timeout)-1], 10, 64)
-	if err != nil {
-		return 0, false
+	for i := 0; i < len(digits); i++ {
+		if digits[i] < '0' || digits[i] > '9' {
+			return 0, false
+		}
 	}
+
 	getUnit := func(suffix byte) time.Duration {
 		switch suffix {
 		case 'H':
@@ -687,6 +697,14 @@ func parseGrpcTimeout(timeout string) (time.Duration, bool) {
 	unit := getUnit(suffix)
 	if unit == 0 {
 		return 0, false
+	}
+
+	const maxDuration = time.Duration(math.MaxInt64)
+
+	val, err := strconv.ParseUint(digits, 10, 64)
+	if err != nil || val > uint64(maxDuration/unit) {
+		// All digits, so the only possible error is that it is out of range.
+		return maxDuration, true
 	}
 
 	return time.Duration(val) * unit, true
